@@ -1041,6 +1041,24 @@ fn parse_expr_binop(
                 }
             };
 
+            // The literal types only exist to type scalar literals
+            // A vector or matrix operation is done in the type the literal receives when it meets a typed value
+            let target_nv_id = if dim != ir::NumericDimension::Scalar {
+                match context.module.type_registry.extract_scalar(target_nv_id) {
+                    Some(ir::ScalarType::IntLiteral) => context
+                        .module
+                        .type_registry
+                        .register_type(ir::TypeLayer::Scalar(ir::ScalarType::Int32)),
+                    Some(ir::ScalarType::FloatLiteral) => context
+                        .module
+                        .type_registry
+                        .register_type(ir::TypeLayer::Scalar(ir::ScalarType::Float32)),
+                    _ => target_nv_id,
+                }
+            } else {
+                target_nv_id
+            };
+
             // Apply the found dimension (to both sides of input)
             let ty = match dim {
                 ir::NumericDimension::Scalar => target_nv_id,
